@@ -51,6 +51,7 @@ const (
 	KOp      = 9  // harness: boundary between two operations of a task
 	KUser    = 10 // harness: explicit yield
 	KTryLock = 11 // Mutex.TryLock (reply: 1 acquired, 0 not)
+	KAtomic  = 12 // before a sync/atomic operation (verifatomic)
 )
 
 const (
